@@ -392,6 +392,15 @@ def run_query(ctx, q, cache, lock):
         if err == 'TIMEOUT' or rc == -9:
             r['status'] = 'inconclusive'
             r['reason'] = 'cbmc timeout after %.0f s' % dt
+            v = r.get('translation_validation') or {}
+            if getattr(q, 'replay_failing_samples', False) and v.get('real_failing_inputs'):
+                # opt-in fallback (q.replay_failing_samples = True): no verdict from the solver, but a harness check failed on the real build
+                # (and on the translation) for one of the pseudo-random validation inputs: replay it, a reproduced failure is reported
+                meta, path = replay_real(ctx, q, bins, v['real_failing_inputs'], 'check failed on the real build during translation validation (solver timed out)')
+                if meta['reproduced']:
+                    r['counterexamples'] = [{'assertion': 'found while validating the translation (sampling on the real build; the solver timed out)', 'inputs': v['real_failing_inputs'],
+                                             'reproduced': True, 'real_failed_checks': meta['real_failed_checks'], 'real_sanitizer': meta['real_sanitizer'], 'replay': path}]
+                    r['status'] = 'violated'
             return r
         res = parse_results(out)
         if not res or ('VERIFICATION SUCCESSFUL' not in out and 'VERIFICATION FAILED' not in out):
